@@ -44,6 +44,9 @@ DESTS = {
     "scale1.5": (Affine.translation(0.125, 0.125) * Affine.scale(1.5), (6, 7)),
     "mirror-x": (Affine.translation(8.25, 0.25) * Affine.scale(-1, 1), (8, 9)),
     "mirror-y": (Affine.translation(0.25, 7.25) * Affine.scale(1, -1), (8, 8)),
+    "mirror-xy": (Affine.translation(8.25, 7.25) * Affine.scale(-1, -1), (8, 9)),  # both axes at once (a 180 degree turn)
+    "mirror-xy-overhang": (Affine.translation(10.25, 5.25) * Affine.scale(-1, -1), (8, 9)),
+    "mirror-xy-scale2": (Affine.translation(9.25, 8.25) * Affine.scale(-2, -2), (5, 6)),
     "outside-left": (Affine.translation(-6, 1), None),
     "outside-right": (Affine.translation(6, 0), None),
     "outside-top": (Affine.translation(1, -5), None),
@@ -593,8 +596,71 @@ def run_axes(case):
     return r
 
 
+# -- long rasters: per-pixel deviations below a tolerance add up over the extent -----------------------------------------
+LONG_SHAPES = ((16, 2000), (2000, 16), (600, 600))
+LONG_REL = {
+    # destination pixel -> source pixel maps that differ from identity by LESS than the usual snapping tolerances per
+    # pixel (1e-3) but by more than a pixel over the raster
+    "rot+0.05deg": lambda: Affine.rotation(0.05),
+    "rot-0.05deg": lambda: Affine.rotation(-0.05),
+    "rot+0.03deg-shifted": lambda: Affine.translation(3, -2) * Affine.rotation(0.03),
+    "shear-9e-4": lambda: Affine(1, 9e-4, 0.25, 0, 1, 0.25),
+    "shear-y-9e-4": lambda: Affine(1, 0, 0.25, -9e-4, 1, 0.25),
+    "scale-1+9e-4": lambda: Affine.translation(0.25, 0.25) * Affine.scale(1 + 9e-4),
+    "scale-2-9e-4": lambda: Affine.translation(0.25, 0.25) * Affine.scale(2 - 9e-4),
+    "rot180+0.05deg": lambda: Affine.translation(1999.5, 15.5) * Affine.rotation(180.05),
+    "identity-control": lambda: Affine.identity(),
+}
+
+
+def gen_long(tier):
+    def g():
+        for shape in LONG_SHAPES:
+            for rel in LONG_REL:
+                for frac in ((8, 4), (4, 8), (2, 2)):
+                    if tier == "quick" and frac == (2, 2) and rel not in ("rot+0.05deg", "shear-9e-4"):
+                        continue
+                    yield (shape, rel, frac)
+
+    return g
+
+
+def run_long(case):
+    """chunked == in-memory on rasters long enough that a sub-tolerance rotation / shear / scale error per pixel adds up
+    to more than a pixel (the in-memory GDAL warp of the same data is the reference: that is the property's own clause)."""
+    shape, rel, frac = case
+    P = LONG_REL[rel]()
+    if rel.startswith("rot180"):
+        P = Affine.translation(shape[1] - 0.5, shape[0] - 0.5) * Affine.rotation(180.05)
+    sg = GeoBox(shape, SRC_A, CRS_M)
+    dg = GeoBox(shape, SRC_A * P, CRS_M)
+    k = np.arange(shape[0] * shape[1], dtype="int64").reshape(shape)
+    data = ((k * 7919) % 30011 + 1).astype("float32")  # neighbouring pixels always differ
+    sch = (max(1, shape[0] // frac[0]), max(1, shape[1] // frac[1]))
+    dch = (max(1, shape[0] // frac[1]), max(1, shape[1] // frac[0]))
+    xx = wrap_xr(data, sg)
+    xd = wrap_xr(da.from_array(data, chunks=sch), sg)
+    whole = xr_reproject(xx, dg, resampling="nearest").values
+    lazy = xr_reproject(xd, dg, resampling="nearest", chunks=dch)
+    r = R(outcome=f"long:{'x'.join(map(str, shape))}:{rel}")
+    try:
+        chunked, _ = execute(lazy.data)
+    except BlockMismatch as e:
+        return r.fail(f"chunked:block-shape:long:{rel}", f"{case}: {e}")
+    r.nontrivial = bool(np.isfinite(whole).any())
+    if not same(chunked, whole):
+        neq = ~((chunked == whole) | (np.isnan(chunked) & np.isnan(whole)))
+        lost = int((np.isnan(chunked) & ~np.isnan(whole) & neq).sum())
+        kind = "fill-where-in-memory-has-data" if lost == int(neq.sum()) else "values"
+        r.fail(f"chunked!=whole:long:{kind}:{rel.split('-')[0].split('+')[0]}",
+               f"{case}: {int(neq.sum())} pixels differ ({lost} are fill in the chunked result only), first at {tuple(np.argwhere(neq)[0])}")
+    return r
+
+
 def slices(tier):
     return [
+        e1.Slice("long-rasters", gen_long(tier), run_long,
+                 "2000-pixel-long rasters x sub-tolerance rotations / shears / scales x chunkings; chunked vs in-memory"),
         e1.Slice("extra-axes", gen_axes(tier), run_axes,
                  "leading time / trailing band / both, every chunking of a 3-long extra axis x spatial chunkings x destinations"),
         e1.Slice("masked-source", gen_masked(tier), run_masked,
